@@ -189,7 +189,74 @@ def case_st(draw, tier):
             "start": draw(st.sampled_from([1, 10, 100])), "step": draw(st.sampled_from([1, 5, 10]))}
 
 
-SUBS = [Sub("group-sort", judge, strategy=case_st, quick=4000, thorough=60000, shards_thorough=48)]
+def judge_mixed(case) -> Verdict:
+    """Explicit AceGroup blocks among plain entries: resequence, permute the top level, sort() restores the
+    numbered text; every block stays contiguous."""
+    from cisco_acl import AceGroup
+
+    acl_case = dict(case["acl"], group_by="")
+    G.validate_acl(acl_case)
+    if len(acl_case["items"]) < 2:
+        raise Invalid()
+    v = Verdict()
+    acl = A.build_acl(acl_case)
+    items = list(acl.items)
+    if len(items) != len(acl_case["items"]):
+        raise Invalid()
+    # wrap generated slices into explicit blocks
+    out, i = [], 0
+    spans = sorted((lo % len(items), max(1, ln)) for lo, ln in case["spans"])
+    for lo, ln in spans:
+        if lo < i:
+            continue
+        out.extend(items[i:lo])
+        out.append(AceGroup(items=items[lo:lo + ln], platform=acl.platform))
+        i = lo + len(items[lo:lo + ln])
+    out.extend(items[i:])
+    acl.items = out
+    nblocks = sum(1 for o in acl.items if isinstance(o, AceGroup))
+    nplain = len(acl.items) - nblocks
+    start, step = case.get("start", 10), case.get("step", 10)
+    if not (1 <= start <= 1000 and 1 <= step <= 100):
+        raise Invalid()
+    tcam = want_tcam(acl_case)
+    acl.resequence(start, step)
+    numbered = acl.line
+    objs = list(acl.items)
+    order = list(range(len(objs)))
+    perm = case.get("perm") or [0]
+    for k in range(len(order) - 1, 0, -1):
+        j = perm[k % len(perm)] % (k + 1)
+        order[k], order[j] = order[j], order[k]
+    acl.items[:] = [objs[k] for k in order]
+    want_lines = [x.line for k in order for x in (objs[k].items if isinstance(objs[k], AceGroup) else [objs[k]])]
+    ind = acl.indent
+    if [ln[len(ind):] for ln in acl.line.split("\n")[1:]] != want_lines:
+        v.fail("mixed:block-split-after-permutation", {"numbered": numbered, "order": order, "got": acl.line})
+    acl.sort()
+    if acl.line != numbered:
+        v.fail("mixed:sort-does-not-restore-numbered-order", {"numbered": numbered, "order": order, "got": acl.line})
+    if acl.tcam_count() != tcam:
+        v.fail("mixed:tcam", {"got": acl.tcam_count(), "want": tcam})
+    v.nt(nblocks >= 1 and nplain >= 1 and order != list(range(len(order))))
+    v.label(f"blocks={min(nblocks, 4)}", f"plain={min(nplain, 6)}", "mixed" if nblocks and nplain else "uniform")
+    return v
+
+
+@st.composite
+def mixed_st(draw, tier):
+    acl = draw(G.acl_st(min_items=2, max_items=10, kmax=2, groups=True, members=True, seqs=False, headings=False,
+                        group_by=False))
+    n = len(acl["items"])
+    return {"acl": acl, "spans": [[draw(st.integers(0, n)), draw(st.integers(1, 3))] for _ in range(draw(st.integers(1, 3)))],
+            "perm": draw(st.lists(st.integers(0, 50), min_size=1, max_size=8)),
+            "start": draw(st.sampled_from([1, 10, 100])), "step": draw(st.sampled_from([1, 5, 10]))}
+
+
+SUBS = [
+    Sub("group-sort", judge, strategy=case_st, quick=4000, thorough=60000, shards_thorough=48),
+    Sub("mixed-top-level", judge_mixed, strategy=mixed_st, quick=1500, thorough=30000),
+]
 
 MANIFEST = {
     "technique": "property-based testing with generated ACL programs and generated permutations: conservation laws (multisets, text equality), block contiguity after arbitrary reordering, sort() as inverse of shuffling after resequence, and a TCAM count recomputed from the generated structure",
